@@ -95,3 +95,29 @@ Proof.
   split; [vm_compute; reflexivity|]. split; [apply mem_str_notIn; vm_compute; reflexivity|].
   split; [vm_compute; reflexivity|]. apply mem_str_In; vm_compute; reflexivity.
 Qed.
+
+(* ---- content-level dry-run theorems over the deploy-core model (Model/Deploy.v) ---- *)
+From AP Require Import Model.Deploy Proofs.DeployP Proofs.DryP.
+
+(* deploy --apply --dry-run (and deploy without --apply): the world is unchanged and the change
+   list reported is exactly the change list of the real run from the same state *)
+Theorem C09_deploy_dry_content : forall json yes apply adopt flt w roots D,
+  let dry := deploy_cli json yes apply true adopt flt w roots D in
+  let real := deploy_cli json yes apply false adopt flt w roots D in
+  snd dry = w /\ snd (fst dry) = None /\ fst (fst dry) = fst (fst real).
+Proof. exact deploy_dry_content. Qed.
+Print Assumptions C09_deploy_dry_content.
+
+Theorem C09_deploy_without_apply : forall json yes dry adopt flt w roots D,
+  deploy_cli json yes false dry adopt flt w roots D = (plan (files w) D (managed_for_plan w roots flt), None, w).
+Proof. exact deploy_without_apply. Qed.
+Print Assumptions C09_deploy_without_apply.
+
+(* evolve restore --dry-run: nothing written, same item list as the real run; the real run writes
+   exactly those items and nothing that exists *)
+Theorem C09_restore_dry_content : forall f D,
+  snd (restore_cli true f D) = f /\ fst (restore_cli true f D) = fst (restore_cli false f D) /\
+  (forall d, In d (fst (restore_cli false f D)) -> f (dpath d) = None) /\
+  (forall p, f p <> None -> snd (restore_cli false f D) p = f p).
+Proof. exact restore_dry_content. Qed.
+Print Assumptions C09_restore_dry_content.
